@@ -205,17 +205,25 @@ inductive Lit where
   | overflow
   deriving DecidableEq, Repr, Inhabited
 
+/-- The first whole number that is not a DOUBLE any more: `2^1024 - 2^970`, halfway between the largest
+DOUBLE `2^1024 - 2^971` and `2^1024`.  `parse::<f64>` rounds to nearest, ties to even, so it answers an
+infinity from this number on (the tie goes up: the significand of the largest DOUBLE is odd) and the
+largest DOUBLE for every whole number below it (`RbThm.C10Float.dblOverflow_is_rounding_edge`). -/
+def dblOverflow : Nat := 2 ^ 1024 - 2 ^ 970
+
 /-- `process_dec(token, negative)`: `parse::<u32>` succeeds up to 4294967295; the value, with the sign
 the caller has already consumed (`negative_dec_parser`, reached from `negative_number_literal` for a
 minus sign directly followed by digits), is classified against the INTEGER and LONG ranges;
-otherwise `parse::<f64>`, negated if `negative`. -/
+otherwise `parse::<f64>`, negated if `negative`; an infinite result of `parse::<f64>` is the parse
+error `Overflow`. -/
 def processDec (negative : Bool) (n : Nat) : Lit :=
   let v : Int := if negative then -(n : Int) else (n : Int)
   if n ≤ 4294967295 then
     if -32768 ≤ v ∧ v ≤ 32767 then .int v
     else if -2147483648 ≤ v ∧ v ≤ 2147483647 then .long v
     else .double v
-  else .double v
+  else if n < dblOverflow then .double v
+  else .overflow
 
 /-- A run of decimal digits (`integer_or_long_literal::parser`). -/
 def decLit (n : Nat) : Lit := processDec false n
@@ -275,10 +283,12 @@ def negLit : Lit → Lit
   | .double n => .double (-n)
   | .overflow => .overflow
 
-/-- The property's typing rule: the narrowest of INTEGER, LONG, DOUBLE that holds the value. -/
+/-- The property's typing rule: the narrowest of INTEGER, LONG, DOUBLE that holds the value; a whole
+number of magnitude `dblOverflow` or more is held by none of them (its nearest DOUBLE is not finite). -/
 def narrowest (v : Int) : Lit :=
   if -32768 ≤ v ∧ v ≤ 32767 then .int v
   else if -2147483648 ≤ v ∧ v ≤ 2147483647 then .long v
-  else .double v
+  else if v.natAbs < dblOverflow then .double v
+  else .overflow
 
 end RbModel.Expr
